@@ -66,6 +66,78 @@ Proof.
   - rewrite rooted_app_nonempty by exact Hp. exact Hr.
 Qed.
 
+(* ------------------------------------------------------------------ *)
+(* redundant separators and "." components anywhere in the argument    *)
+(* ------------------------------------------------------------------ *)
+
+Lemma split_aux_app_slash : forall a b cur,
+  split_slash_aux (a ++ "/" ++ b) cur = (split_slash_aux a cur ++ split_slash b)%list.
+Proof.
+  induction a as [|c a IH]; intros b cur.
+  - reflexivity.
+  - change ((String c a) ++ "/" ++ b) with (String c (a ++ "/" ++ b)).
+    cbn [split_slash_aux]. destruct (is_slash c); rewrite IH; reflexivity.
+Qed.
+Lemma split_app_slash : forall a b, split_slash (a ++ "/" ++ b) = (split_slash a ++ split_slash b)%list.
+Proof. intros a b. apply split_aux_app_slash. Qed.
+
+(* an empty or "." component is skipped wherever it stands *)
+Lemma clean_comps_skip : forall r c l1 l2 stack,
+  c = "" \/ c = "." -> clean_comps r (l1 ++ c :: l2)%list stack = clean_comps r (l1 ++ l2)%list stack.
+Proof.
+  intros r c l1 l2 stack Hc. revert stack. induction l1 as [|x l1 IH]; intro stack.
+  - cbn [app]. rewrite clean_comps_cons.
+    assert (E : String.eqb c "" || String.eqb c "." = true).
+    { destruct Hc as [-> | ->]; reflexivity. }
+    rewrite E. reflexivity.
+  - cbn [app]. rewrite !clean_comps_cons.
+    destruct (String.eqb x "" || String.eqb x "."); [apply IH|].
+    destruct (String.eqb x "..").
+    + destruct stack as [|top rest].
+      * destruct r; apply IH.
+      * destruct (String.eqb top ".."); apply IH.
+    + apply IH.
+Qed.
+
+Lemma rooted_app_slash : forall a b c, rooted (a ++ "/" ++ b) = rooted (a ++ "/" ++ c).
+Proof. intros a b c. destruct a as [|x a]; reflexivity. Qed.
+
+(* "a//b" and "a/b" are one spelling, for every a and b (also at the very start or end) *)
+Theorem clean_double_slash : forall a b, clean (a ++ "//" ++ b) = clean (a ++ "/" ++ b).
+Proof.
+  intros a b.
+  rewrite (clean_unfold (a ++ "//" ++ b)) by (apply sapp_nonempty_r; discriminate).
+  rewrite (clean_unfold (a ++ "/" ++ b)) by (apply sapp_nonempty_r; discriminate).
+  change (a ++ "//" ++ b) with (a ++ "/" ++ (String "/" b)).
+  rewrite (rooted_app_slash a (String "/" b) b).
+  rewrite !split_app_slash. rewrite split_leading_slash.
+  rewrite !(clean_comps_skip _ "") by (left; reflexivity). reflexivity.
+Qed.
+
+(* "a/./b" and "a/b" are one spelling *)
+Theorem clean_dot_component : forall a b, clean (a ++ "/./" ++ b) = clean (a ++ "/" ++ b).
+Proof.
+  intros a b.
+  rewrite (clean_unfold (a ++ "/./" ++ b)) by (apply sapp_nonempty_r; discriminate).
+  rewrite (clean_unfold (a ++ "/" ++ b)) by (apply sapp_nonempty_r; discriminate).
+  change (a ++ "/./" ++ b) with (a ++ "/" ++ ("." ++ "/" ++ b)).
+  rewrite (rooted_app_slash a ("." ++ "/" ++ b) b).
+  rewrite !split_app_slash. change (split_slash ".") with ["."]. cbn [app].
+  rewrite !(clean_comps_skip _ ".") by (right; reflexivity). reflexivity.
+Qed.
+
+(* a trailing "/." is invisible *)
+Theorem clean_trailing_dot : forall p, p <> "" -> clean (p ++ "/.") = clean p.
+Proof.
+  intros p Hp.
+  rewrite <- (clean_trailing_slash (p ++ "/.")) by (apply sapp_nonempty_r; discriminate).
+  rewrite sapp_assoc. change ("/." ++ "/") with ("/./" ++ "").
+  rewrite clean_dot_component. change ("/" ++ "") with "/". apply clean_trailing_slash. exact Hp.
+Qed.
+
+Print Assumptions clean_double_slash.
+Print Assumptions clean_dot_component.
+Print Assumptions clean_trailing_dot.
 Print Assumptions clean_dot_slash.
 Print Assumptions clean_detour.
 Print Assumptions clean_spellings_agree.
